@@ -22,4 +22,6 @@ def run(check):
     check.run_rule('C18.R3', lambda c: rule_annotate_after_modifier(c, 'C18.R3'))
     check.run_rule('C18.R3b', lambda c: rule_prepare_table(c, None, 'C18.R3'))
     check.run_rule('C18.R4', lambda c: rule_descriptor_cache(c, 'C18.R4', 'C18.R1'))
+    from ..rules_modifiers import rule_cache_per_descriptor
+    check.run_rule('C18.R4b', lambda c: rule_cache_per_descriptor(c, 'C18.R4'))
     check.run_rule('C18.R1b', lambda c: rule_recursion_guard_emptied(c, 'C18.R1'))
